@@ -10,6 +10,8 @@ Facts extracted (each with the syntactic shape it expects; an unknown shape give
   streamLoopShape      `for _ in range(snum): for chid in range(chmax)` (rounds outside, channels inside)
   startResets          `start()` calls `self._dummydev.reset()`; `Device.reset` resets every channel; `DeviceChannel.reset`
                        resets the attached function
+  resetZeroesCalls     `DeviceChannel.reset` ends with `self._cntr = 0` at function level (the call counter handed to
+                       `func.get(cntr)` restarts with the generators — finding F19); `data_get` increments it on every call
   stopDrainsOne        `stop()` takes at most one item from each queue with get_nowait
   defaultSnum / defaultFlags / default channel table (type, vdim, mlen, name, generator class)
   generator constants  ChannelFunc1/2/6/7/8/9 literals, ChannelFunc5/7 data tuples
@@ -223,6 +225,20 @@ def gen_dummy(repo) -> Out:
             raise Missing("DeviceChannel.data_get: func.get(self._cntr); self._cntr += 1 / None")
         return "true"
     o.d("devResetShape", "Bool", dev_reset, "Device.reset -> every channel -> the attached function; data_get counts calls")
+
+    def reset_zeroes_calls():
+        Ch = find_class(tdev, "DeviceChannel")
+        f = find_func(Ch, "reset")
+        stmts = [unparse(x) for x in f.body if not (isinstance(x, ast.Expr) and isinstance(x.value, ast.Constant))]
+        if not stmts or not stmts[0].startswith("if self._func is not None:"):
+            raise Missing("DeviceChannel.reset: if self._func is not None: self._func.reset()")
+        init = unparse(find_func(Ch, "__init__"))
+        if "self._cntr = 0" not in init:
+            raise Missing("DeviceChannel.__init__: self._cntr = 0")
+        # the counter is zeroed unconditionally (a top-level statement of reset, not under the `if`)
+        return "self._cntr = 0" in stmts[1:]
+    o.d("resetZeroesCalls", "Bool", lambda: lean_bool(reset_zeroes_calls()),
+        "DeviceChannel.reset zeroes the call counter passed to func.get()")
 
     def stop_shape():
         s = unparse(find_func(D, "stop"))
